@@ -212,3 +212,29 @@ def sequential_decide(run, en):
             return st
     return None
 
+
+
+def hold_variants(make, decide0=None, kinds=("write", "read"), max_ops=60):
+    """One execution per network operation k of the default schedule: operation k is HELD (left pending -
+    the write lock / read lock its task owns stays taken) for as long as anything else can happen;
+    everything else follows the default schedule.  Reaches "while X's write is in progress, Y queues a
+    frame and Z comes and goes" without searching for it."""
+    decide0 = decide0 or default_decide
+    base = make()
+    base.run(decide0)
+    ops = [op.seq for op in base.net.ops if op.kind in kinds and op.state == "done"][:max_ops]
+    base.finish()
+    for k in ops:
+        run = make()
+
+        def decide(r, en, k=k):
+            rest = [s for s in en if not (s[0] == "op" and s[1] == k)]
+            st = decide0(r, rest) if rest else None
+            if st is None or st[0] == "tick":
+                held = [s for s in en if s[0] == "op" and s[1] == k]
+                if held:
+                    return held[0]
+            return st
+
+        run.run(decide)
+        yield ("hold", k), run
